@@ -80,4 +80,60 @@ theorem Reach.refl (g : Graph) (r : Nat) : Reach g r r := ⟨_, .root⟩
 theorem Reach.step {g : Graph} {r u v : Nat} (h : Reach g r u) (e : Edge g u v) : Reach g r v := by
   obtain ⟨l, hl⟩ := h; exact ⟨_, .snoc hl e⟩
 
+/-! ## The same graph with its blocks listed in another order -/
+
+/-- `g'` is `g` with the blocks listed in another order: block `u` of `g` is block `π u` of `g'`
+(`σ` is the inverse renumbering). -/
+structure Relabel (g g' : Graph) (π σ : Nat → Nat) : Prop where
+  len : g'.length = g.length
+  lt : ∀ u, u < g.length → π u < g.length
+  lt' : ∀ u, u < g.length → σ u < g.length
+  left : ∀ u, u < g.length → σ (π u) = u
+  right : ∀ u, u < g.length → π (σ u) = u
+  succ : ∀ u, u < g.length → succ g' (π u) = (succ g u).map π
+
+theorem Relabel.symm {g g' : Graph} {π σ : Nat → Nat} (h : Relabel g g' π σ) (hwf : WF g) :
+    Relabel g' g σ π where
+  len := h.len.symm
+  lt := by intro u hu; rw [h.len] at *; exact h.lt' u hu
+  lt' := by intro u hu; rw [h.len] at *; exact h.lt u hu
+  left := by intro u hu; rw [h.len] at hu; exact h.right u hu
+  right := by intro u hu; rw [h.len] at hu; exact h.left u hu
+  succ := by
+    intro u hu
+    rw [h.len] at hu
+    have h1 := h.succ (σ u) (h.lt' u hu)
+    rw [h.right u hu] at h1
+    rw [h1, List.map_map]
+    symm
+    calc (Graph.succ g (σ u)).map (σ ∘ π) = (Graph.succ g (σ u)).map id := by
+          apply List.map_congr_left
+          intro v hv
+          exact h.left v (hwf (σ u) v hv)
+      _ = Graph.succ g (σ u) := List.map_id _
+
+theorem Relabel.path {g g' : Graph} {π σ : Nat → Nat} (h : Relabel g g' π σ) {r b : Nat}
+    {l : List Nat} (hp : Path g r b l) : Path g' (π r) (π b) (l.map π) := by
+  induction hp with
+  | root => exact .root
+  | @snoc u v l hp e ih =>
+    rw [List.map_append]
+    refine .snoc ih ?_
+    unfold Edge
+    rw [h.succ u (edge_src_lt e)]
+    exact List.mem_map_of_mem e
+
+/-- one direction of order independence: if every path to `π b` in the relisted graph passes
+through `π a`, every path to `b` in the original graph passes through `a` -/
+theorem Relabel.pathdom {g g' : Graph} {π σ : Nat → Nat} (h : Relabel g g' π σ) (h0 : π 0 = 0)
+    {a b : Nat} (ha : a < g.length) (hb : b < g.length)
+    (hd : ∀ l', Path g' 0 (π b) l' → π a ∈ l') : ∀ l, Path g 0 b l → a ∈ l := by
+  intro l hl
+  have hp := h.path hl
+  rw [h0] at hp
+  obtain ⟨x, hx, hxa⟩ := List.mem_map.mp (hd _ hp)
+  have hxlt : x < g.length := hl.lt (by omega) hb x hx
+  have : x = a := by rw [← h.left x hxlt, hxa, h.left a ha]
+  exact this ▸ hx
+
 end Xdsl.Graph
